@@ -243,6 +243,59 @@ fn templates() -> Vec<(&'static str, Vec<Vec<Vec<S>>>, usize)> {
             2,
         ),
         (
+            // E = id | ( E ) | ( ! ) ; list of E separated by ","
+            "recover-paren",
+            vec![
+                vec![vec![n(1)], vec![n(0), t(3), n(1)]],
+                vec![vec![t(0)], vec![t(1), n(1), t(2)], vec![t(1), S::Bang, t(2)]],
+            ],
+            4,
+        ),
+        (
+            // optional prefix, recovery in the middle, empty reductions around it
+            "recover-eps",
+            vec![
+                vec![vec![n(1), n(2), t(0)]],
+                vec![vec![t(1)], vec![]],
+                vec![vec![S::Bang], vec![t(2)], vec![n(3), t(2)]],
+                vec![vec![]],
+            ],
+            3,
+        ),
+        (
+            "recover-stmts",
+            vec![
+                vec![vec![], vec![n(0), n(1)]],
+                vec![vec![t(0), n(2), t(1)], vec![S::Bang, t(1)]],
+                vec![vec![t(2)], vec![n(2), t(3), t(2)], vec![]],
+            ],
+            4,
+        ),
+        (
+            // an empty reduction right after the error symbol (under the lookahead recovery resumed with)
+            "recover-then-eps",
+            vec![
+                vec![vec![n(1), n(2), t(0)], vec![n(0), t(3), n(1), n(2), t(0)]],
+                vec![vec![t(1)], vec![S::Bang]],
+                vec![vec![], vec![t(2)]],
+            ],
+            4,
+        ),
+        (
+            "recover-eps-list",
+            vec![
+                vec![vec![n(1)], vec![n(0), n(2), n(1)]],
+                vec![vec![], vec![n(1), t(0)]],
+                vec![vec![t(1)], vec![S::Bang, t(1)]],
+            ],
+            2,
+        ),
+        (
+            "recover-top",
+            vec![vec![vec![n(1), t(0)], vec![S::Bang]], vec![vec![t(1)], vec![n(1), t(1)]]],
+            2,
+        ),
+        (
             "recover-nest",
             vec![
                 vec![vec![t(0), n(1), t(1)]],
@@ -321,9 +374,28 @@ fn mutate(r: &mut Rng, g: &mut Cfg, bang: bool) {
     }
 }
 
+/// a grammar that certainly uses `!` (recovery-focused runs)
+pub fn gen_cfg_recovery(r: &mut Rng) -> Cfg {
+    for _ in 0..50 {
+        let g = gen_cfg_with(r, true, true);
+        if g.uses_bang() {
+            return g;
+        }
+    }
+    gen_cfg_with(r, true, true)
+}
+
 /// one generated grammar; `stream` 0 = template (renamed), 1 = mutated template, 2 = fully random
 pub fn gen_cfg(r: &mut Rng, allow_bang: bool) -> Cfg {
-    let ts = templates();
+    gen_cfg_with(r, allow_bang, false)
+}
+
+fn gen_cfg_with(r: &mut Rng, allow_bang: bool, prefer_bang: bool) -> Cfg {
+    let ts: Vec<_> = if prefer_bang {
+        templates().into_iter().filter(|(name, _, _)| name.starts_with("recover")).collect()
+    } else {
+        templates()
+    };
     let stream = r.below(10);
     let mut g = if stream < 8 {
         let (name, nts, nterm) = ts[r.below(ts.len())].clone();
